@@ -659,6 +659,41 @@ def run (lines : Array String) : Driver.Report := Id.run do
         | _, _ => r := mon r "dump_parse" label n line "cannot parse the filtered block"
       | some _, none => r := r.check n line impl "no-block"
       | _, _ => r := r.addDisagree n line "bad-op"
+    | ["block", "commit", _txs, spec] =>
+      -- generate_rollup_datas_commitment on real checked transactions (sequencer harness)
+      r := r.bump "op_commit"
+      match specP spec with
+      | none => r := r.addDisagree n line "bad-op"
+      | some inp =>
+        let (c1, c2) := commitments shaHs inp.subs inp.deps
+        r := r.check n line impl s!"{hx c1} {hx c2}"
+        -- what the proposer commits to is what the builder recomputes from the executed block
+        if inp.txsRoot ≠ c1 ∨ inp.idsRoot ≠ c2 then
+          r := mon r "commitment_matches_builder" "commit" n line "astria-core's grouping and the specification's commitments differ"
+    | ["block", "grpcfilter", idsS'] =>
+      let label := "grpcfilter"
+      r := r.bump "op_grpcfilter"
+      match idsP idsS', s.model with
+      | some ids, some b =>
+        if ids.any (fun i => i.length != 32) then
+          r := r.check n line impl "grpc-error:InvalidArgument"
+        else
+          let f := grpcFiltered b ids
+          r := r.check n line impl (filteredS (okOracle b.eci) f)
+          r := r.bump s!"grpcfilter_request_{ids.length}_returned_{f.rollups.length}"
+          s := { s with honestRaws := impl :: s.honestRaws }
+          match filteredP impl, s.impl with
+          | some (fraw, _), some built =>
+            let want := (ids.filter built.ids.contains).filterMap fun id =>
+              (built.rollups.find? fun x => x.id = id).map Rt.toRaw
+            if fraw.rollups ≠ want then
+              r := mon r "grpc_filter_exact" label n line "served entries are not the stored entries of the requested present rollups (request order)"
+            if fraw.allIds ≠ built.ids ∨ fraw.header ≠ some built.header.toRaw ∨ fraw.blockHash ≠ built.blockHash
+                ∨ fraw.txsProof ≠ some (encodeProof built.txsProof) ∨ fraw.idsProof ≠ some (encodeProof built.idsProof) then
+              r := mon r "grpc_filter_exact" label n line "ids / header / proofs of the served block differ from the stored block"
+          | _, _ => r := mon r "dump_parse" label n line "cannot parse the served filtered block"
+      | some _, none => r := r.check n line impl "no-block"
+      | _, _ => r := r.addDisagree n line "bad-op"
     | ["block", "split"] =>
       let label := "split"
       r := r.bump "op_split"
